@@ -35,9 +35,12 @@ def build_frames(frames, rendering):
         objs = []
         for oid, o in fn_items(f["objs"]):
             yaw = o["a"] * 2 * math.pi / 24
-            if rendering == "map":
+            if rendering in ("map", "map-no-velocity"):
                 ob = obj3d((o["x"], o["y"], 0.0), yaw=yaw, label="car", uuid="id%s" % oid, frame="base_link", time=BASE + f["time"] * UNIT)
                 ob.frame_id = __import__("perception_eval.common.schema", fromlist=["FrameID"]).FrameID.MAP
+                if rendering == "map-no-velocity" and ((oid + k) % 2 == 0 or oid % 3 == 0):
+                    # what the loader yields for an annotation whose neighbours in the instance chain are too far apart in time
+                    ob.state.velocity = None
             else:
                 c, s = math.cos(-ego.yaw), math.sin(-ego.yaw)
                 dx, dy = o["x"] - ego.t[0], o["y"] - ego.t[1]
@@ -75,6 +78,11 @@ def check_interp(res, spec, frames_real, rep, mism, tag, storage=None):
         if not (o.frame_id == "map"):
             pos, rot = ego2map.transform(o.state.position, o.state.orientation)
         yaw = rot.yaw_pitch_roll[0]
+        # the object's own geometric accessors speak of the pose its state carries
+        fc = o.get_footprint().centroid
+        cc = o.get_corners().mean(axis=0)
+        if abs(fc.x - o.state.position[0]) > 1e-6 or abs(fc.y - o.state.position[1]) > 1e-6 or any(abs(a - b) > 1e-6 for a, b in zip(cc[:2], o.state.position[:2])):
+            mism.append(("interp-geometry-not-at-pose" + tag, "object %s: state.position %s but its footprint is centred at (%r, %r), its corners at %s" % (u, list(o.state.position), fc.x, fc.y, list(cc)), rep))
         if abs(pos[0] - w["x"] / den) > 1e-6 or abs(pos[1] - w["y"] / den) > 1e-6:
             mism.append(("interp-position" + tag, "object %s at %s, specification (%s, %s)/%s" % (u, list(pos), w["x"], w["y"], den), rep))
         if not ang_close(yaw, (w["a"] / den) * 2 * math.pi / 24):
@@ -97,7 +105,7 @@ def replay(arg):
     frames, t, tol, out = arg
     mism = []
     n = 0
-    for rendering in ("map", "base_link"):
+    for rendering in ("map", "base_link", "map-no-velocity"):
         n += 1
         real = build_frames(frames, rendering)
         rep = {"frames": frames, "t": t, "tol": tol, "rendering": rendering, "spec": out}
@@ -111,6 +119,8 @@ def replay(arg):
             # the loaded frames have been used before (an evaluation queries map -> base_link on them)
             for f in real:
                 f.transforms.transform((FrameID.MAP, FrameID.BASE_LINK), (1.0, 2.0, 0.0))
+                for o in f.objects:      # ... and has looked at the objects' geometry (matching does)
+                    o.get_footprint(), o.get_corners()
             snap = [(f.unix_time, [(o.uuid, tuple(o.state.position), tuple(o.state.orientation.elements)) for o in f.objects],
                      {str(k): m.matrix.copy() for k, m in f.transforms.items()}) for f in real]
             ri = get_interpolated_now_frame(real, tq, tolq)
@@ -125,7 +135,7 @@ def replay(arg):
                 elif ri is not real[sp["idx"] - 1]:
                     mism.append(("interp-wrong-neighbour", "interpolating lookup returned another frame than %d" % sp["idx"], rep))
             else:
-                check_interp(ri, sp, real, rep, mism, tag, storage=rendering)
+                check_interp(ri, sp, real, rep, mism, tag, storage=rendering.split("-")[0])
                 # the same query again, and a query at the before-neighbour's own time, on the SAME loaded frames
                 check_interp(get_interpolated_now_frame(real, tq, tolq), sp, real, rep, mism, ":second-lookup")
             for f, (t0_, objs0, tf0) in zip(real, snap):
@@ -152,7 +162,7 @@ def replay(arg):
             if (rmi is None) != (ri is None):
                 mism.append(("manager-interp", "manager interpolating lookup differs from get_interpolated_now_frame", rep))
         except Exception as ex:
-            mism.append(("raised", "raised %r" % (ex,), rep))
+            mism.append(("raised" + (":objects-without-velocity" if rendering == "map-no-velocity" else ""), "raised %r" % (ex,), rep))
     return n, mism
 
 
